@@ -836,6 +836,49 @@ func stressHedge(seed int64, scale int) int {
 		wg.Wait()
 		v.count(fmt.Sprintf("hedges=%d", hedgeEvents.Load()))
 	}
+	// a hedge policy inside a hedge policy: the attempt that wins is the inner policy's hedge, running inside the outer policy's hedge.
+	// When the composition returns the winner has not been cancelled and every other started attempt has.
+	for i := 0; i < 2*scale; i++ {
+		outer := hedgepolicy.BuilderWithDelay[int](3 * time.Millisecond).WithMaxHedges(1).Build()
+		inner := hedgepolicy.BuilderWithDelay[int](12 * time.Millisecond).WithMaxHedges(1).Build()
+		var seq atomic.Int32
+		var nmu sync.Mutex
+		execs := map[int32]failsafe.Execution[int]{}
+		var losers sync.WaitGroup
+		losers.Add(3)
+		res, err := failsafe.NewExecutor[int](outer, inner).GetWithExecution(func(e failsafe.Execution[int]) (int, error) {
+			n := seq.Add(1)
+			nmu.Lock()
+			execs[n] = e
+			nmu.Unlock()
+			if n == 4 {
+				return 42, nil
+			}
+			defer losers.Done()
+			select {
+			case <-e.Canceled():
+			case <-time.After(2 * time.Second):
+			}
+			return -int(n), errX
+		})
+		nmu.Lock()
+		if err != nil || res != 42 || seq.Load() != 4 {
+			v.add(fmt.Sprintf("nested hedges: result (%d, %v) after %d attempts, want (42, nil) after 4", res, err, seq.Load()))
+		} else {
+			if execs[4].IsCanceled() {
+				v.add("nested hedges: the winning attempt was cancelled when the execution returned")
+			}
+			for n := int32(1); n <= 3; n++ {
+				if !execs[n].IsCanceled() {
+					v.add(fmt.Sprintf("nested hedges: losing attempt %d was not cancelled when the execution returned", n))
+				}
+			}
+		}
+		nmu.Unlock()
+		losers.Wait()
+		runs++
+		v.count("nested-hedges")
+	}
 	return v.report("hedge", runs)
 }
 
